@@ -161,10 +161,18 @@ class Check(BaseCheck):
                 datetime.datetime(2019, 11, 20, 12, 0, 0), datetime.datetime(1900, 3, 1), 61, datetime.datetime(9999, 12, 31), -2.5, 'abc', 'abd',
                 datetime.datetime(1900, 1, 1), datetime.datetime(1900, 1, 2), datetime.datetime(1900, 2, 28), datetime.datetime(1900, 2, 28, 12, 0), datetime.datetime(1900, 1, 31, 6, 30)]
         classes = GV.SCALAR_CLASSES
-        while len(vals) < n + 29:
+        import math
+        # numbers a few ulps apart: unequal, so exactly one of < and > holds and order is transitive along the chain
+        for base in (1.0, 0.3, rnd.uniform(1, 1000), float(rnd.randint(10 ** 6, 10 ** 12)), 43789.5):
+            x = base
+            for _ in range(3):
+                vals.append(x)
+                x = math.nextafter(x, math.inf)
+        vals += [0.1 + 0.2, 0.3, 1, 1.0000000000000002, 1.0000000000000007, 2 ** 53, 2 ** 53 + 1, float(2 ** 53)]
+        while len(vals) < n + 60:
             vals.append(GV.gen(rnd, rnd.choice(classes)))
         rnd.shuffle(vals)
-        return vals[:max(n, 29)]
+        return vals[:max(n, 60)]
 
     def pairs(self, spec, rec):
         rnd = self.rng(spec)
